@@ -38,7 +38,7 @@ from vf import c13_sets as S
 
 PID = 'C13'
 LEVEL = 'exploration'
-RULE = ('full product nmesh {4,5,6,8} x cell size {1,250} x {TSC,CIC} x compensated x interlaced x {linear nmesh bins, log 4 bins} x '
+RULE = ('full product nmesh {4,5,6,8,13} x cell size {1,250} x {TSC,CIC} x compensated x interlaced x {linear nmesh bins, log 4 bins} x '
         'mubins {None,3} x poles {None,[0,2]} x {float32 positions+field, float64 positions+field, float64 positions on a float32 field} '
         '(quick: a strength-2 covering of the binning options, cell size alternating, float64 positions only for nmesh 5 and 8 with one '
         'binning each); inside each configuration every particle set of the tier '
@@ -67,7 +67,7 @@ ENVS = {'f8': {}}      # float64-position cases get their own worker pool: each 
 
 TOL = {'float32': 3e-5, 'float64': 1e-11}
 FLOOR_LIMIT = 3e-6
-NMESH = [4, 5, 6, 8]
+NMESH = [4, 5, 6, 8, 13]   # 13: the smallest mesh whose default TSC partition has 4 concurrent stripes
 CELLS = [1.0, 250.0]
 THREADS = [2, 5, 16]
 # (logk, mubins, poles)
@@ -95,7 +95,11 @@ def cases(tier, seed):
         for g in NMESH:
             if quick and dt != 'f4' and g not in (5, 8):
                 continue
+            if quick and g == 13 and dt != 'f4':
+                continue
             for paste in ('TSC', 'CIC'):
+                if g == 13 and paste == 'CIC' and quick:
+                    continue
                 for comp in (0, 1):
                     for il in (0, 1):
                         rows = BINNINGS
